@@ -15,30 +15,31 @@ package main
 // bin/vruntime.py.
 
 import (
+	art "github.com/Clement-Jean/go-art"
 	"runtime"
 	"runtime/debug"
 	"strconv"
 )
 
 type heapKind struct {
-	Kind        string  `json:"kind"`
-	Keys        int     `json:"keys"`
-	PoolKeys    int     `json:"pool_keys"`
-	N           int     `json:"n"`
-	BuiltBytes  int64   `json:"built_bytes"` // live heap attributable to the built tree
-	QueryBPO    float64 `json:"query_bytes_per_op"`
-	WorstQueryBPO float64 `json:"worst_single_method_bytes_per_call"`
-	WorstQuery  string  `json:"worst_single_method"`
-	WorstQueryBytes int64 `json:"largest_growth_in_one_method_phase_bytes"`
-	OverwrBPO   float64 `json:"overwrite_bytes_per_op"`
-	ChurnBPO    float64 `json:"churn_bytes_per_op"`
-	EmptyRetain int64   `json:"empty_after_deletes_bytes"`
-	ColBufLen0  int     `json:"collation_buf_len_after_build"`
-	ColBufLen   int     `json:"collation_buf_len_after_queries"`
-	ColBufCap   int     `json:"collation_buf_cap_after_churn"`
-	MaxSortKey  int     `json:"longest_sort_key"`
-	SizeOK      bool    `json:"size_ok"`
-	Iterated    int64   `json:"elements_iterated"`
+	Kind            string  `json:"kind"`
+	Keys            int     `json:"keys"`
+	PoolKeys        int     `json:"pool_keys"`
+	N               int     `json:"n"`
+	BuiltBytes      int64   `json:"built_bytes"` // live heap attributable to the built tree
+	QueryBPO        float64 `json:"query_bytes_per_op"`
+	WorstQueryBPO   float64 `json:"worst_single_method_bytes_per_call"`
+	WorstQuery      string  `json:"worst_single_method"`
+	WorstQueryBytes int64   `json:"largest_growth_in_one_method_phase_bytes"`
+	OverwrBPO       float64 `json:"overwrite_bytes_per_op"`
+	ChurnBPO        float64 `json:"churn_bytes_per_op"`
+	EmptyRetain     int64   `json:"empty_after_deletes_bytes"`
+	ColBufLen0      int     `json:"collation_buf_len_after_build"`
+	ColBufLen       int     `json:"collation_buf_len_after_queries"`
+	ColBufCap       int     `json:"collation_buf_cap_after_churn"`
+	MaxSortKey      int     `json:"longest_sort_key"`
+	SizeOK          bool    `json:"size_ok"`
+	Iterated        int64   `json:"elements_iterated"`
 }
 
 func liveHeap() int64 {
@@ -171,6 +172,23 @@ func heapOne(seed uint64, ks kindSpec, N, nkeys int) heapKind {
 		{"BottomK", N / 40, func() { drainSeq(t, "BOTK", kArgs[r.n(len(kArgs))], 2) }},
 		{"Range", N / 10, func() { drainSeq(t, "RNG", rngArgs[r.n(len(rngArgs))], 3) }},
 	}
+	if fresh := freshKey(kind); fresh != nil {
+		// every call asks about a key that was never asked about before and is not stored: whatever the tree
+		// remembers per DISTINCT queried key (a memo table, a negative cache) grows here and nowhere else
+		cnt := 0
+		sub = append(sub, struct {
+			name string
+			n    int
+			f    func()
+		}{"Search/Delete of fresh absent keys", N / 2, func() {
+			cnt++
+			k := fresh(cnt)
+			t.Search(k)
+			if cnt%4 == 0 {
+				t.Delete(k)
+			}
+		}})
+	}
 	if hasPfx || kind == "coll" {
 		if kind == "coll" {
 			for i := range pfxArgs {
@@ -241,6 +259,74 @@ func heapOne(seed uint64, ks kindSpec, N, nkeys int) heapKind {
 	return res
 }
 
+// freshKey: the i-th of an unbounded family of key texts that are in no pool (nil: the kind has no such family here)
+func freshKey(kind string) func(i int) string {
+	switch {
+	case kind == "alpha" || kind == "coll":
+		return func(i int) string { return xhex([]byte("\x7fmiss-" + strconv.Itoa(i))) }
+	case kind == "u8":
+		return func(i int) string { return showU(0x7fff000000000000 + uint64(i)) }
+	case kind == "f8":
+		return func(i int) string { return showU(0x4330000000000000 + uint64(i)) }
+	}
+	return nil
+}
+
+type heapCrossRes struct {
+	Groups    int   `json:"groups"`
+	ValueSize int   `json:"value_bytes"`
+	BigBytes  int64 `json:"big_tree_bytes"`
+	Retained  int64 `json:"retained_by_the_small_trees_after_the_big_tree_is_gone"`
+	SmallKeys int   `json:"small_tree_keys"`
+	Node16    bool  `json:"node16_released"`
+}
+
+// heapCross: a tree with LARGE values whose FULL node4s collapse (4 -> 1 children; six == false) or whose FULL
+// node16s shrink (16 -> 3; six == true; only a full array keeps the deleted child's reference in its last
+// cell, the shifts then spread it over the vacated cells) hands its nodes to the pool; a small tree built right after each release takes
+// the node from there (3 keys: a node4 that never grows; 5 keys: a node16); then the big tree is dropped.  What
+// the small trees keep alive must be what THEY store: a node that went to the pool with child slots still
+// pointing at the big tree's leaves would show here (and only here: two collections empty the pool).
+// (The small trees never release a node of the size class under test, so the pool's per-P slot holds the big
+// tree's node when they ask.)
+func heapCross(groups, valueSize int, six bool) heapCrossRes {
+	type big = []byte
+	res := heapCrossRes{Groups: groups, ValueSize: valueSize, Node16: six}
+	stem := func(g int) string { return "g" + strconv.Itoa(100000+g) + ":" }
+	n, m := 4, 3
+	if six {
+		n, m = 16, 5
+	}
+	base := liveHeap()
+	A := art.NewAlphaSortedTree[string, big]()
+	for g := 0; g < groups; g++ {
+		for c := 0; c < n; c++ {
+			A.Insert(stem(g)+string(rune('a'+c)), make(big, valueSize))
+		}
+	}
+	res.BigBytes = liveHeap() - base
+	var small []art.Tree[string, int]
+	for g := 0; g < groups; g++ {
+		last := 1
+		if six {
+			last = 3 // down to three children: the node16 is replaced by a node4 and released
+		}
+		for c := n - 1; c >= last; c-- { // largest first: the vacated slots keep their old contents
+			A.Delete(stem(g) + string(rune('a'+c)))
+		}
+		s := art.NewAlphaSortedTree[string, int]()
+		for c := 0; c < m; c++ {
+			s.Insert("s"+string(rune('a'+c)), c)
+			res.SmallKeys++
+		}
+		small = append(small, s)
+	}
+	A = nil
+	res.Retained = liveHeap() - base
+	runtime.KeepAlive(small)
+	return res
+}
+
 func heapMain(args []string) int {
 	seed, N, nkeys := uint64(1), 100000, 200
 	if len(args) > 0 {
@@ -256,11 +342,12 @@ func heapMain(args []string) int {
 	kinds := []kindSpec{{"alpha", "string"}, {"alpha", "bytes"}, {"u8", "uint64"}, {"s4", "int32"}, {"f8", "float64"},
 		{"coll", "string:root"}, {"coll", "bytes:de"}, {"comp", ""}}
 	var out struct {
-		Seed  uint64     `json:"seed"`
-		N     int        `json:"n"`
-		Noise int64      `json:"noise_bytes"` // |difference| of two back-to-back live-heap measurements
-		Kinds []heapKind `json:"kinds"`
-		Bulk  []heapBulkRes `json:"bulk"`
+		Seed  uint64         `json:"seed"`
+		N     int            `json:"n"`
+		Noise int64          `json:"noise_bytes"` // |difference| of two back-to-back live-heap measurements
+		Kinds []heapKind     `json:"kinds"`
+		Bulk  []heapBulkRes  `json:"bulk"`
+		Cross []heapCrossRes `json:"cross_tree"`
 	}
 	out.Seed, out.N = seed, N
 	// warm-up: tables of x/text, fmt, the pools' first use
@@ -275,6 +362,7 @@ func heapMain(args []string) int {
 		out.Kinds = append(out.Kinds, heapOne(seed, ks, N, nkeys))
 	}
 	out.Bulk = append(out.Bulk, heapBulk("u4", "uint32", 120000), heapBulk("alpha", "string", 60000))
+	out.Cross = append(out.Cross, heapCross(300, 32*1024, false), heapCross(100, 16*1024, true))
 	printJSON(out)
 	return 0
 }
